@@ -415,6 +415,12 @@ class DemoStorage(ConflictResolvingStorage):
         self._commit_lock.acquire()
 
         with self._lock:
+            if not a and k.get('tid') is None:
+                # Transaction ids must increase across the layers; the
+                # changes storage only knows about its own last one.
+                k['tid'] = ZODB.utils.newTid(max(
+                    self.base.lastTransaction(),
+                    self.changes.lastTransaction()))
             self.changes.tpc_begin(transaction, *a, **k)
             self._transaction = transaction
             self._stored_oids = set()
